@@ -439,7 +439,7 @@ def _discharge(db, body, tm, s):
                 if mir_callee(t) == s["fn"]:
                     ctm = Terms(b, db)
                     off = ctm.operand(t["args"][1])
-                    masked = any(x[0] == "bin" and x[1] == "BitAnd" for x in subterms(off))
+                    masked = _masked(db, off)
                     ok = ok and masked
         for d, b in db.mir.items():
             for i, t in mir_calls(b):
@@ -449,6 +449,21 @@ def _discharge(db, body, tm, s):
         if ok:
             return "offset is address & (PAGE_SIZE-1) at every call site and every page has PAGE_SIZE cells (checked)"
     return None
+
+
+def _masked(db, t, depth=0):
+    """The term contains a bit-mask, directly or in the return value of a local helper it calls (one or two levels)."""
+    for x in subterms(t):
+        if not isinstance(x, tuple) or not x:
+            continue
+        if x[0] == "bin" and x[1] == "BitAnd":
+            return True
+        if x[0] == "call" and depth < 2 and x[1] in db.mir and x[1].startswith("memory::paged::"):
+            hb = db.mir[x[1]]
+            htm = Terms(hb, db)
+            if _masked(db, htm.local(0), depth + 1):
+                return True
+    return False
 
 
 SITE_ALLOW = {
